@@ -18,6 +18,7 @@ package gitstore
 //@ # number of storage operations that failed (C16): incremented by every storer method that returns an error other than the
 //@ # documented "reference not found" answer
 //@ ghost faults int
+//@ monotone faults
 //@ spec cmsg(h Hash) string
 //@ spec cnpar(h Hash) int
 //@ spec cpar(h Hash, i int) Hash
@@ -139,3 +140,40 @@ package gitstore
 //@   trusted
 //@   assigns ghost faults, ghost objSet
 //@   ensures faults == old(faults) + ite(err != nil, 1, 0)
+
+//@ # ---- commit walks used by the per-entry verification (C01/C10) ----
+//@ # commitsBetween(new, old): the commits introduced between two states; changedPaths(c): the paths commit c
+//@ # adds, modifies or deletes, exactly as recorded in the trees (A-git: proved for gitinterface against git's
+//@ # output under C10)
+//@ # commit walks and changed paths as mathematical sequences (independent of the heap the result slices live in)
+//@ spec cbLen(n Hash, o Hash) int
+//@ spec cbAt(n Hash, o Hash, k int) Hash
+//@ spec cpLen(c Hash) int
+//@ spec cpAt(c Hash, q int) string
+//@ spec tagTarget(t Hash) Hash
+//@ spec mergeTree(a Hash, b Hash) Hash
+//@ func ext:(pkg/gitstore.Storer).GetCommitsBetweenRange -> (cs, err)
+//@   trusted
+//@   assigns ghost faults, fresh(elems githash.Hash)
+//@   ensures err == nil ==> len(cs) == cbLen(commitNewID, commitOldID) && (forall k :: 0 <= k && k < len(cs) ==> cs[k] == cbAt(commitNewID, commitOldID, k))
+//@   ensures !errIs(err, policy.ErrVerifierConditionsUnmet)
+//@   ensures faults == old(faults) + ite(err != nil, 1, 0)
+//@ func ext:(pkg/gitstore.Storer).GetFilePathsChangedByCommit -> (ps, err)
+//@   trusted
+//@   assigns ghost faults, fresh(elems string)
+//@   ensures err == nil ==> len(ps) == cpLen(commitID) && (forall q :: 0 <= q && q < len(ps) ==> ps[q] == cpAt(commitID, q))
+//@   ensures faults == old(faults) + ite(err != nil, 1, 0)
+//@ func ext:(pkg/gitstore.Storer).GetTagTarget -> (t, err)
+//@   trusted
+//@   assigns ghost faults
+//@   ensures err == nil ==> t == tagTarget(tagID)
+//@   ensures faults == old(faults) + ite(err != nil, 1, 0)
+//@ func ext:(pkg/gitstore.Storer).GetMergeTree -> (t, err)
+//@   trusted
+//@   assigns ghost faults
+//@   ensures err == nil ==> t == mergeTree(commitAID, commitBID)
+//@   ensures faults == old(faults) + ite(err != nil, 1, 0)
+//@ func ext:(pkg/gitstore.Storer).ZeroHash -> (z)
+//@   trusted
+//@   pure
+//@   ensures z.IsZero()
